@@ -36,18 +36,19 @@ def handle (j : Json) : Except String Json := do
     let ss ← (← getArr j "pcs").toList.mapM pcOfJson
     let t ← assignOfJson (← j.getObjVal? "trial")
     let w ← getBool j "wire"
-    let r := if w then trialParameters ss t else pytrialParameters ss t
+    let cfg := cfgOfJson j
+    let r := if w then trialParameters cfg ss t else pytrialParameters cfg ss t
     return jsonOfResult jsonOfOut r
   | "judge" =>
     let ss ← (← getArr j "pcs").toList.mapM pcOfJson
     let t ← assignOfJson (← j.getObjVal? "stored")
     let known := trialKnown ss t
     match j.getObjVal? "out" with
-    | .ok .null => return Json.mkObj [("known", Json.bool known), ("uniq", Json.bool (activeNamesUnique ss t)), ("why", Json.null),
+    | .ok .null => return Json.mkObj [("known", Json.bool known), ("uniq", Json.bool (activeNamesUnique ss t)), ("extOK", Json.bool ((allSpace ss).all fun p => extOK p.h)), ("treeNamesUnique", Json.bool (decide ((names (allSpace ss)).Nodup))), ("why", Json.null),
         ("active", toJson ((activePresent ss t).map (·.1.name)).toArray)]
     | .ok o =>
       let out ← outOfJson o
-      return Json.mkObj [("known", Json.bool known), ("uniq", Json.bool (activeNamesUnique ss t)),
+      return Json.mkObj [("known", Json.bool known), ("uniq", Json.bool (activeNamesUnique ss t)), ("extOK", Json.bool ((allSpace ss).all fun p => extOK p.h)), ("treeNamesUnique", Json.bool (decide ((names (allSpace ss)).Nodup))),
         ("why", match judge ss t out with | none => Json.null | some w => Json.str w),
         ("active", toJson ((activePresent ss t).map (·.1.name)).toArray)]
     | .error e => throw e
